@@ -28,7 +28,6 @@ class _Base(Stage):
         for l in histgen.labels_of(specs):
             res.label(l)
         res.label('dialect:' + case.get('dialect', 'new'))
-        if len(specs) >= 1400: res.label('history>=1400-messages')
         res.nontrivial = nontrivial(specs)
         from .. import wire
         res.sample = dict(dialect=case.get('dialect', 'new'), lines=[wire.render(m, case.get('dialect', 'new')) if not m.get('destroy') else '(connection %s destroyed)' % m['conn'] for m in specs[:12]], n=len(specs))
@@ -64,9 +63,7 @@ class DeepReuse(_Base):
 
     def gen(self, d, tier):
         prof = dict(reuse=0.95, weights=dict(deep=85, message=10, delete=3, bind=2))
-        # now and then far enough for three letters (incarnation 703 is aaa)
-        nmsg = d.int(1420, 1500) if d.chance(0.08) else d.int(64, 90)
-        specs = histgen.history(d, nconn=1 if d.chance(0.7) or nmsg > 100 else 2, nmsg=nmsg, profile=prof)
+        specs = histgen.history(d, nconn=1 if d.chance(0.7) else 2, nmsg=d.int(64, 90), profile=prof)      # (three letters: see long-sessions)
         return dict(dialect=d.choice(['new', 'old']), specs=specs)
 
 
